@@ -4,7 +4,6 @@ import (
 	"encoding/json"
 	"fmt"
 	"math/big"
-	"sort"
 	"strings"
 
 	"github.com/ethereum/go-ethereum/common"
@@ -48,7 +47,7 @@ type Machine struct {
 func NewMachine(t *rapid.T, r *rec.Recorder) *Machine {
 	n := rapid.SampledFrom([]int{2, 2, 3}).Draw(t, "chains")
 	seed := rapid.SliceOfN(rapid.Byte(), 2, 2).Draw(t, "seed")
-	return &Machine{T: t, R: r, W: NewWorld(n, seed), CallKinds: []string{"", "", "", "ok", "revert", "hookfail"},
+	return &Machine{T: t, R: r, W: NewWorld(n, seed), CallKinds: []string{"", "", "", "ok", "revert", "hookfail", "agent", "agent"},
 		Out: map[string]*big.Int{}, Bind: map[string]*big.Int{}}
 }
 
@@ -107,8 +106,21 @@ func (w *World) Route(s, d int, tok common.Address) (back bool, other common.Add
 	return false, common.Address{}, false
 }
 
-func key(c int, tok common.Address, other int) string {
-	return fmt.Sprintf("%d|%s|%d", c, strings.ToLower(tok.Hex()), other)
+func key(c int, tok common.Address, other string) string {
+	return fmt.Sprintf("%d|%s|%s", c, strings.ToLower(tok.Hex()), other)
+}
+
+// ApplySendLedger records the lock (forward) or burn (back) of an observed sent packet.
+func (m *Machine) ApplySendLedger(p *Pkt) {
+	back := false
+	if p.DstIdx >= 0 {
+		back, _, _ = m.W.Route(p.SrcIdx, p.DstIdx, p.Token)
+	}
+	if back {
+		m.add(m.Bind, key(p.SrcIdx, p.Token, p.P.DstChain), p.Amount, -1)
+	} else {
+		m.add(m.Out, key(p.SrcIdx, p.Token, p.P.DstChain), p.Amount, +1)
+	}
 }
 
 func (m *Machine) add(mp map[string]*big.Int, k string, v *big.Int, sign int) {
@@ -130,6 +142,27 @@ func (w *World) Balance(c int, tok common.Address, addr common.Address) *big.Int
 		return w.Chains[c].App.BankKeeper.GetBalance(w.Chains[c].Ctx(), addr.Bytes(), "stake").Amount.BigInt()
 	}
 	return w.Chains[c].ERC20Balance(tok, addr)
+}
+
+// SenderSide is the balance that a refund of p must show up in: the sender's, plus - for a packet sent by
+// the agent contract - the address the agent passes refunds on to.
+func (w *World) SenderSide(p *Pkt) *big.Int {
+	b := w.Balance(p.SrcIdx, p.Token, p.Sender.Addr)
+	if p.Parent != nil && p.RefundTo != p.Sender.Addr {
+		b = new(big.Int).Add(b, w.Balance(p.SrcIdx, p.Token, p.RefundTo))
+	}
+	return b
+}
+
+// ExpectedCredit is what the receiver of p must gain when p is executed successfully: the amount, minus what
+// the callback forwarded in nested packets (amount and fee) when the receiver is the agent contract.
+func ExpectedCredit(p *Pkt) *big.Int {
+	c := new(big.Int).Set(p.Amount)
+	for _, n := range p.Nested {
+		c.Sub(c, n.Amount)
+		c.Sub(c, n.Fee)
+	}
+	return c
 }
 
 // ---------------------------------------------------------------------------------------------
@@ -171,17 +204,24 @@ func (m *Machine) ActSend(t *rapid.T) {
 	fee := big.NewInt(rapid.Int64Range(0, 3).Draw(t, "fee"))
 	call := rapid.SampledFrom(m.CallKinds).Draw(t, "call")
 	recv := strings.ToLower(w.Users[rapid.IntRange(0, 1).Draw(t, "receiver")].Addr.String())
-	out := w.Send(SendSpec{Src: src, DstName: w.Chains[dst].ChainID, User: user, Token: tok, Amount: amt, Fee: fee, Receiver: recv, Call: call}, m.OnSend != nil)
+	var agentFee *big.Int
+	if call == "agent" {
+		// the agent contract on dst forwards the received tokens to a further chain (known or unknown to dst)
+		finals := []string{"no-such-chain", TSSName}
+		for j, o := range w.Chains {
+			if j != dst {
+				finals = append(finals, o.ChainID)
+			}
+		}
+		call = "agent:" + rapid.SampledFrom(finals).Draw(t, "agentFinal")
+		agentFee = big.NewInt(rapid.Int64Range(0, 2).Draw(t, "agentFee"))
+	}
+	out := w.Send(SendSpec{Src: src, DstName: w.Chains[dst].ChainID, User: user, Token: tok, Amount: amt, Fee: fee, Receiver: recv, Call: call, AgentFee: agentFee}, m.OnSend != nil)
 	m.Log("send", fmt.Sprintf("%d>%d %s amt=%s fee=%s call=%s", src, dst, w.TokName(src, tok), amt, fee, call), fmt.Sprintf("ok=%v", out.OK))
 	if out.OK {
 		m.R.Label("send_ok")
 		for _, p := range out.Pkts {
-			back, _, _ := w.Route(p.SrcIdx, p.DstIdx, p.Token)
-			if back {
-				m.add(m.Bind, key(p.SrcIdx, p.Token, p.DstIdx), p.Amount, -1)
-			} else {
-				m.add(m.Out, key(p.SrcIdx, p.Token, p.DstIdx), p.Amount, +1)
-			}
+			m.ApplySendLedger(p)
 		}
 	} else {
 		m.R.Label("send_failed")
@@ -272,10 +312,14 @@ func (m *Machine) ActRecvFresh(t *rapid.T) {
 		back, other, ok := w.Route(p.SrcIdx, p.DstIdx, p.Token)
 		if ok {
 			if back {
-				m.add(m.Out, key(p.DstIdx, other, p.SrcIdx), p.Amount, -1)
+				m.add(m.Out, key(p.DstIdx, other, p.P.SrcChain), p.Amount, -1)
 			} else {
-				m.add(m.Bind, key(p.DstIdx, other, p.SrcIdx), p.Amount, +1)
+				m.add(m.Bind, key(p.DstIdx, other, p.P.SrcChain), p.Amount, +1)
 			}
+		}
+		for _, n := range p.Nested {
+			m.ApplySendLedger(n)
+			m.R.Label("nested_send_in_receive")
 		}
 	}
 	m.R.Label(fmt.Sprintf("recv_ack_code_%d_call_%s", p.Ack.Code, p.Call))
@@ -302,11 +346,14 @@ func (m *Machine) ActAck(t *rapid.T) {
 		m.Accepted++
 		if p.Ack.Code != 0 {
 			p.Refunded = true
-			back, _, _ := w.Route(p.SrcIdx, p.DstIdx, p.Token)
+			back := false
+			if p.DstIdx >= 0 {
+				back, _, _ = w.Route(p.SrcIdx, p.DstIdx, p.Token)
+			}
 			if back {
-				m.add(m.Bind, key(p.SrcIdx, p.Token, p.DstIdx), p.Amount, +1)
+				m.add(m.Bind, key(p.SrcIdx, p.Token, p.P.DstChain), p.Amount, +1)
 			} else {
-				m.add(m.Out, key(p.SrcIdx, p.Token, p.DstIdx), p.Amount, -1)
+				m.add(m.Out, key(p.SrcIdx, p.Token, p.P.DstChain), p.Amount, -1)
 			}
 		}
 		m.R.Label(fmt.Sprintf("ack_processed_code_%d", p.Ack.Code))
@@ -348,44 +395,61 @@ func (m *Machine) Wrap(f func(*rapid.T)) func(*rapid.T) {
 	return func(t *rapid.T) { m.T = t; f(t) }
 }
 
-// CheckLedger compares the endpoint views outTokens / bindings with the model on every tracked key.
+// CheckLedger compares the endpoint views outTokens / bindings (and the supply of bound tokens) with the
+// model for EVERY (chain, token of the world, destination / origin name) combination, including
+// destinations nothing was ever successfully sent to (expected 0).
 func (m *Machine) CheckLedger() {
 	w := m.W
-	var ks []string
-	for k := range m.Out {
-		ks = append(ks, k)
-	}
-	sort.Strings(ks)
-	for _, k := range ks {
-		var c, d int
-		var tok string
-		parts := strings.Split(k, "|")
-		fmt.Sscan(parts[0], &c)
-		tok = parts[1]
-		fmt.Sscan(parts[2], &d)
-		got := w.Chains[c].OutTokens(common.HexToAddress(tok), w.Chains[d].ChainID)
-		if got.Cmp(m.Out[k]) != 0 {
-			m.Failf("value conservation: chain %d outTokens[%s][%s] = %s, but sends minus refunds/releases observed = %s", c, w.TokName(c, common.HexToAddress(tok)), w.Chains[d].ChainID, got, m.Out[k])
+	for c, ch := range w.Chains {
+		toks := []common.Address{w.Tok[c], w.TTok[c], w.Target[c], {}}
+		if c == 0 {
+			toks = append(toks, w.Unbound)
+		} else {
+			toks = append(toks, w.NTok[c])
 		}
-	}
-	ks = ks[:0]
-	for k := range m.Bind {
-		ks = append(ks, k)
-	}
-	sort.Strings(ks)
-	for _, k := range ks {
-		var c, o int
-		parts := strings.Split(k, "|")
-		fmt.Sscan(parts[0], &c)
-		tok := common.HexToAddress(parts[1])
-		fmt.Sscan(parts[2], &o)
-		got := w.Chains[c].Bindings(tok, w.Chains[o].ChainID).Amount
-		if got.Cmp(m.Bind[k]) != 0 {
-			m.Failf("value conservation: chain %d bindings[%s/%s].amount = %s, but successful executions minus burns plus re-credits observed = %s", c, w.TokName(c, tok), w.Chains[o].ChainID, got, m.Bind[k])
+		names := []string{TSSName, "no-such-chain"}
+		for j, o := range w.Chains {
+			if j != c {
+				names = append(names, o.ChainID)
+			}
 		}
-		// minted supply of a bound token equals what the bindings say (no value created)
-		if sup := w.Chains[c].ERC20Supply(tok); sup.Cmp(got) != 0 {
-			m.Failf("chain %d totalSupply(%s) = %s differs from bindings amount %s", c, w.TokName(c, tok), sup, got)
+		for _, tok := range toks {
+			for _, name := range names {
+				want := m.Out[key(c, tok, name)]
+				if want == nil {
+					want = new(big.Int)
+				}
+				got := ch.OutTokens(tok, name)
+				if got.Cmp(want) != 0 {
+					m.Failf("value conservation: chain %d outTokens[%s][%s] = %s, but successful sends minus refunds/releases observed = %s", c, w.TokName(c, tok), name, got, want)
+				}
+				if tok == (common.Address{}) {
+					continue
+				}
+				b := ch.Bindings(tok, name)
+				wantB := m.Bind[key(c, tok, name)]
+				if wantB == nil {
+					wantB = new(big.Int)
+				}
+				if b.Amount.Cmp(wantB) != 0 {
+					m.Failf("value conservation: chain %d bindings[%s/%s].amount = %s, but successful executions minus burns plus re-credits observed = %s", c, w.TokName(c, tok), name, b.Amount, wantB)
+				}
+			}
+		}
+		// minted supply of a bound token equals what its binding says (no value created)
+		type bound struct {
+			tok common.Address
+			ori string
+		}
+		var bs []bound
+		if c > 0 {
+			bs = append(bs, bound{w.Tok[c], w.Chains[c-1].ChainID}, bound{w.NTok[c], w.Chains[0].ChainID})
+		}
+		for _, x := range bs {
+			amt := ch.Bindings(x.tok, x.ori).Amount
+			if sup := ch.ERC20Supply(x.tok); sup.Cmp(amt) != 0 {
+				m.Failf("chain %d totalSupply(%s) = %s differs from bindings amount %s", c, w.TokName(c, x.tok), sup, amt)
+			}
 		}
 	}
 }
